@@ -48,6 +48,9 @@ var vocab = []string{
 	"0", "1", "42", "1e", "1e+", "1E-", "1e5", "1.e5", ".5", "1.", ".", "..", "1e+5", "0x1F", "1e\n", "1E+\n", "2e-\r\n", "1e\r\n", "3E\n\n",
 	`"s"`, `'s'`, `"a\"b"`, `"\x41"`, `"\x"`, `"é"`, `"ᄀ00"`, `"\101"`, `"\q"`, `"unterminated`, "\"nl\n\"", `""`, `"é"`, "\"\xff\"",
 	"/re/", "/a\\/b/", "/[/]/", "/=x/", "/unterminated", "/a\nb/", "//",
+	// a regex literal that only starts the regular-expression argument of a builtin: the parser reads the literal,
+	// finds no ',' or ')' after it and goes back to parse the argument as an expression
+	`sub(/x/ "y", "z")`, `gsub(/x/ y, "z", t)`, `match($0, /a/ || /b/)`, `split(s, parts, /x/ "y")`, "sub(/x/\n", `match(s, /a/ ~`, "gsub(/x/ /y/, 1)", "split(s, p, /=/ =",
 	"# comment", "#\n", "# c\r\n", "\\\n", "\\\r\n", "\\ \n", "\\x", "\\",
 	"é", "\xff", "\xc3", "\x00", "\t", "\r", "\r\n", " ", "  ",
 }
